@@ -70,3 +70,15 @@ Theorem c07_refused_handler_subscription_no_effect : forall st p,
   (forall l buf st' c, Api.v2_subscribe st p l buf = (st', inr c) -> st' = st).
 Proof. exact Proofs.Api.handler_subscribe_refused_no_effect. Qed.
 Print Assumptions c07_refused_handler_subscription_no_effect.
+
+(* kuksa.val.v1 Subscribe with several entries: every signal an entry selects is subscribed with at least that
+   entry's fields, whatever the other entries of the request say about the same signal (the union, not the first) *)
+Theorem c07_v1_multi_entry_union : forall st p l es,
+  Api.v1_sub_all st p l [] = inl es ->
+  forall path fl sel id f, In (path, fl) l -> Api.v1_sub_entries st p path fl = inl sel -> In (id, f) sel ->
+  exists g, In (id, g) es /\
+            (f_dp f = true -> f_dp g = true) /\ (f_target f = true -> f_target g = true) /\
+            (f_unit f = true -> f_unit g = true).
+Proof. exact (fun st p l es H => proj2 (Proofs.Api.v1_sub_all_union st p l [] es H)). Qed.
+Print Assumptions c07_v1_multi_entry_union.
+
